@@ -283,9 +283,12 @@ def finishPlain (loadRec : List Char → Prim × List Char) (c0 cDigits : List C
   else
     let st := scanSuffix loadRec false s ⟨0, false, decimal, false, s⟩
     if st.decimal ∨ st.float_ then
-      let consumed := c0.take (c0.length - st.rest.length)
-      if st.float_ then (⟨some .float, b32 (atof consumed).toFloat32⟩, st.rest)
-      else (⟨some .double, b64 (atof consumed)⟩, st.rest)
+      -- the sign (and blanks after it) were consumed before `cDigits`: the digits are converted and
+      -- the sign applied afterwards (`primitive::negative`), as in the integer branch
+      let digitsText := cDigits.take (cDigits.length - st.rest.length)
+      let x := if negative then -(atof digitsText) else atof digitsText
+      if st.float_ then (⟨some .float, b32 (if negative then -((atof digitsText).toFloat32) else (atof digitsText).toFloat32)⟩, st.rest)
+      else (⟨some .double, b64 x⟩, st.rest)
     else
       let ds := cDigits.take (cDigits.length - cDigitsEnd.length)
       let isDecimal := hd cDigits ≠ '0'
